@@ -66,9 +66,16 @@ type crlBehaviour struct {
 	lists    bool // authentically lists the certificate
 	hasDelta bool
 	dontCare bool
-	httpOnly bool // only meaningful through the real HTTPFetcher
+	httpOnly bool   // only meaningful through the real HTTPFetcher
+	prime    string // behaviour whose (genuine) artefact is validated once, in the same execution, before this one is served
 	make     func(w *crlWorld, dp int) *crlArtefact
 }
+
+// c05ByName looks a behaviour up by name (a variable, set in init, so that behaviours can refer to other behaviours' artefacts
+// without an initialisation cycle).
+var c05ByName func(name string) *crlBehaviour
+
+func init() { c05ByName = crlByName }
 
 func crlBehaviours() []crlBehaviour {
 	fresh := pki.Now.Add(24 * time.Hour)
@@ -152,6 +159,24 @@ func crlBehaviours() []crlBehaviour {
 	withDelta("delta-no-next-update", true, false, func(w *crlWorld, b, d *pki.CRLSpec) { d.NextUpdate = time.Time{} })
 	withDelta("delta-unknown-critical-ext", true, false, func(w *crlWorld, b, d *pki.CRLSpec) { d.UnknownCrit = true })
 	withDelta("base-lists-cert+delta-clean", false, true, func(w *crlWorld, b, d *pki.CRLSpec) { b.Entries = []pki.CRLEntry{entry(w)} })
+	// three unrelated entries in the base (crypto/x509 leaves spare capacity behind a three-element entry slice) and the certificate in the delta
+	withDelta("base-three-other-entries+delta-lists-cert", false, true, func(w *crlWorld, b, d *pki.CRLSpec) {
+		for k := int64(0); k < 3; k++ {
+			e := otherEntry
+			e.Serial = big.NewInt(990100 + k)
+			b.Entries = append(b.Entries, e)
+		}
+		d.Entries = []pki.CRLEntry{entry(w)}
+	})
+	// signature transplants: other content under a signature value that is genuine for a CRL the process has validated just before
+	// (the genuine twin is validated first, within the same execution: a verdict must not be remembered by signature value)
+	add(crlBehaviour{name: "clean-content-under-the-signature-of-lists-cert(validated-just-before)", failing: true, prime: "lists-cert", make: func(w *crlWorld, dp int) *crlArtefact {
+		return &crlArtefact{base: pki.CRLWithSignatureOf(pki.ForgeCRL(baseSpec(w, dp, false)), w.artefact(c05ByName("lists-cert"), dp).base)}
+	}})
+	add(crlBehaviour{name: "delta-clean-content-under-the-signature-of-delta-lists-cert(validated-just-before)", failing: true, hasDelta: true, prime: "delta-lists-cert", make: func(w *crlWorld, dp int) *crlArtefact {
+		g := w.artefact(c05ByName("delta-lists-cert"), dp)
+		return &crlArtefact{base: g.base, delta: pki.CRLWithSignatureOf(pki.ForgeCRL(deltaSpec(w, baseNum+1, baseNum)), g.delta)}
+	}})
 	add(crlBehaviour{name: "fetch-error", failing: true, make: func(w *crlWorld, dp int) *crlArtefact { return &crlArtefact{fetchErr: true} }})
 	add(crlBehaviour{name: "advertised-delta-unobtainable", failing: true, hasDelta: true, httpOnly: true, make: func(w *crlWorld, dp int) *crlArtefact {
 		return &crlArtefact{base: pki.ForgeCRL(baseSpec(w, dp, true)), deltaLocMissing: true}
@@ -267,6 +292,22 @@ func callValidate(v revocation.Validator, ctx context.Context, opts revocation.V
 	return
 }
 
+// prime validates the genuine artefact g (as distribution point dp would serve it) with a validator of its own; the verdict is not used.
+func (s *c05Scenario) prime(c *mc.Ctx, w *crlWorld, g *crlBehaviour, dp int) {
+	a := w.artefact(g, dp)
+	f := netsim.FetcherFunc(func(ctx context.Context, u string) (*corecrl.Bundle, error) {
+		return &corecrl.Bundle{BaseCRL: a.pBase, DeltaCRL: a.pDelta}, nil
+	})
+	v, err := revocation.NewWithOptions(revocation.Options{OCSPHTTPClient: noNetClient, CRLFetcher: f, CertChainPurpose: purpose.CodeSigning})
+	if err != nil {
+		panic(mc.HarnessError{Msg: err.Error()})
+	}
+	res, _, _ := callValidate(v, context.Background(), revocation.ValidateContextOptions{CertChain: []*x509.Certificate{w.leaf.X, w.root.X}})
+	if len(res) == 2 && res[0] != nil {
+		c.Tracef("priming: genuine %q validated first (verdict %s)", g.name, res[0].Result)
+	}
+}
+
 func (s *c05Scenario) body(c *mc.Ctx) {
 	w := s.world()
 	alpha := s.alphabet()
@@ -284,6 +325,9 @@ func (s *c05Scenario) body(c *mc.Ctx) {
 		}
 		b := &c05Behaviours[alpha[k]]
 		chosen[dp] = b
+		if b.prime != "" {
+			s.prime(c, w, c05ByName(b.prime), dp)
+		}
 		order = append(order, dp)
 		c.Cover("crl-behaviour:" + b.name)
 		c.Tracef("distribution point %d contacted -> behaviour %q", dp, b.name)
@@ -453,7 +497,7 @@ func c05Init(mc.Tier) (int, error) {
 		}
 		n++
 		errB := a.pBase.CheckSignatureFrom(w.root.X)
-		wrongBase := strings.HasPrefix(b.name, "wrong-signer")
+		wrongBase := strings.HasPrefix(b.name, "wrong-signer") || strings.HasPrefix(b.name, "clean-content-under-the-signature-of")
 		if wrongBase == (errB == nil) {
 			return n, fmt.Errorf("self-check %s: base signature check = %v", b.name, errB)
 		}
@@ -475,7 +519,7 @@ func c05Init(mc.Tier) (int, error) {
 		if a.pDelta != nil {
 			n++
 			errD := a.pDelta.CheckSignatureFrom(w.root.X)
-			if strings.HasPrefix(b.name, "delta-wrong-signer") == (errD == nil) {
+			if (strings.HasPrefix(b.name, "delta-wrong-signer") || strings.HasPrefix(b.name, "delta-clean-content-under-the-signature-of")) == (errD == nil) {
 				return n, fmt.Errorf("self-check %s: delta signature check = %v", b.name, errD)
 			}
 			for _, e := range a.pDelta.RevokedCertificateEntries {
